@@ -25,6 +25,19 @@ TRUSTED = [
 ]
 
 
+# every instruction / step / unit kind of Model/Session.v, as it appears in the terms the harness emits
+MODEL_CLASSES = [
+    ("ISet", r"\bISet\b"), ("ICopy (function value copied / rebound)", r"\bICopy\b"), ("IAdd", r"\bIAdd\b"), ("IPrint", r"\bIPrint\b"),
+    ("IOut", r"\bIOut\b"), ("IDef", r"\bIDef\b"), ("ICall through a global", r"ICall \(CGlobal"), ("ICall of the function-valued argument", r"ICall CArg"),
+    ("ICall passing a function value", r"%N \(Some \d+%N\)"), ("IFail", r"\bIFail\b"),
+    ("SInput accepted", r"SInput \[[^\]]*\]*?.*? true "), ("SInput rejected at compile time", r"\] false "),
+    ("module unit that runs", r"mkMU true"), ("re-import of a loaded module (exports only)", r"mkMU false"),
+    ("SHost", r"\bSHost\b"), ("SHost with the wrong arity", r"SHost \d+%N 2%N"), ("SSet (host set_global)", r"\bSSet\b"),
+    ("function without globals of its own (layout [])", r"mkF \[\] "), ("function of arity 2", r"\] 2%N \["),
+    ("self-recursive function (frame limit)", r"mkF \[[^\]]*\] 1%N \[ICall \(CGlobal"),
+]
+
+
 def parse_lists(t):
     return [[int(x) for x in re.findall(r"-?\d+", part)] for part in re.findall(r"\[([^\[\]]*)\]", t)]
 
@@ -56,19 +69,29 @@ def run(ctx):
         ctx.log(out[-2000:])
         return
     corpus_cases(ctx)
-    n_cases = 300 if ctx.tier == "quick" else 4000
-    profiles = ["dev"] if ctx.tier == "quick" else ["dev", "release"]
+    n_cases = 300 if ctx.tier == "quick" else 8000
+    # (build profile, optimisation level, cases, seed): quick = one run; thorough = dev + release (overflow checks and debug
+    # assertions on / off), every optimisation level, three more seeds
+    if ctx.tier == "quick":
+        runs = [("dev", 1, n_cases, ctx.seed)]
+    else:
+        # A REPL session is compiled at OptimizationLevel::Basic (cli/src/cli/mod.rs hard-codes it; run_with_vm: "uses Basic opt
+        # to keep top-level vars for subsequent inputs") or below.  Above Basic every input is optimised as a whole program
+        # (a `let mut g = 5` that its own input does not read is a dead store there), so levels 2 and 3 are not sessions.
+        runs = [("dev", 1, n_cases, ctx.seed), ("release", 1, n_cases, ctx.seed), ("dev", 0, n_cases // 2, ctx.seed + 101),
+                ("release", 0, n_cases // 2, ctx.seed + 202), ("dev", 1, n_cases // 2, ctx.seed + 303), ("release", 1, n_cases // 2, ctx.seed + 404)]
     total, nsteps = 0, 0
     s_total, s_untranslated = 0, {}
+    model_classes, lengths = {}, {}
     distinct = set()
     kinds, by_sig = {}, {}
-    for prof in profiles:
+    for prof, opt_level, n_cases, run_seed in runs:
         ok, paths, log = vlib.harness_build(["hx_repl"], profile=prof)
         if not ok:
             ctx.broken.append("harness build failed (hx_repl, %s)" % prof)
             ctx.log(log[-3000:])
             return
-        rc, out = vlib.sh([paths["hx_repl"], "--seed", str(ctx.seed), "--n", str(n_cases)], timeout=1500)
+        rc, out = vlib.sh([paths["hx_repl"], "--seed", str(run_seed), "--n", str(n_cases), "--opt", str(opt_level)], timeout=2400)
         cases = []
         sess = {}
         for line in out.splitlines():
@@ -80,7 +103,7 @@ def run(ctx):
                               "source": f[6], "problems": f[7], "kinds": f[8], "stale": len(f) > 9 and f[9] == "1"})
         if rc != 0 or len(cases) != n_cases:
             ctx.violation("c14:harness-crash", "hx_repl died (the VM took the process down) after %d sessions" % len(cases),
-                          {"profile": prof, "completed": len(cases), "cmd": f"hx_repl --seed {ctx.seed} --n {n_cases}",
+                          {"profile": prof, "opt": opt_level, "seed": run_seed, "completed": len(cases), "cmd": f"hx_repl --seed {run_seed} --n {n_cases} --opt {opt_level}",
                            "output_tail": out[-1500:]})
             if not cases:
                 return
@@ -109,6 +132,13 @@ def run(ctx):
         scases = [(c["seed"], sess[c["seed"]]) for c in cases if c["seed"] in sess and sess[c["seed"]]["ok"]]
         untranslated = [sess[c["seed"]]["why"] if c["seed"] in sess else "no SESS line" for c in cases if not (c["seed"] in sess and sess[c["seed"]]["ok"])]
         s_total += len(scases)
+        for _, x in scases:
+            for key, pat in MODEL_CLASSES:
+                model_classes[key] = model_classes.get(key, 0) + len(re.findall(pat, x["steps"] + " " + x["code"]))
+            nst = x["expect"].count("], S")
+            lengths[nst] = lengths.get(nst, 0) + 1
+            model_classes["step status SErr"] = model_classes.get("step status SErr", 0) + x["expect"].count("SErr")
+            model_classes["step status SOk"] = model_classes.get("step status SOk", 0) + x["expect"].count("SOk")
         for w in untranslated:
             s_untranslated[w] = s_untranslated.get(w, 0) + 1
         sfails, serr = vlib.coq_eval_cases("c14s", IMPORTS_S, "session_tie", "sobs_eqb",
@@ -132,7 +162,7 @@ def run(ctx):
         for i in div[:5] + stale[:2] + mism[:3]:
             c = cases[i]
             k = first_div(c)
-            rep = {"case_seed": c["seed"], "profile": prof, "source": c["source"], "real_steps": c["real"], "oracle_steps": c["oracle"],
+            rep = {"case_seed": c["seed"], "profile": prof, "opt": opt_level, "seed": run_seed, "source": c["source"], "real_steps": c["real"], "oracle_steps": c["oracle"],
                    "observed": c["observed"], "model_query": c["query"], "first_step_differing_from_oracle": k}
             if i in failset and i in set(fails):
                 mo, _ = vlib.coq_eval_terms("c14", IMPORTS, [f"session_obs_noflags ({c['query']})"])
@@ -157,13 +187,19 @@ def run(ctx):
             by_sig["c14:model-mismatch"] = by_sig.get("c14:model-mismatch", 0) + len(mism)
         ctx.add_samples([{"source": c["source"][:500], "real_steps": c["real"][:6], "oracle_steps": c["oracle"][:6]} for c in cases[:2] + cases[7:8]])
     ctx.cov["evaluations"] = total
+    ctx.cov["runs (profile, optimisation level, cases, seed)"] = [list(r) for r in runs]
     ctx.cov["distinct_nontrivial"] = len(distinct)
     ctx.cov["session_steps"] = nsteps
     ctx.cov["sessions_checked_against_Model_Session"] = s_total
     ctx.cov["sessions_not_translated_to_Model_Session"] = s_untranslated
     if total and s_total * 10 < total * 9:
         ctx.broken.append("tie C14: fewer than 90%% of the generated sessions could be translated to Model/Session.v (%d of %d)" % (s_total, total))
-    ctx.cov["input_distribution"] = {"step_kinds": kinds, "sessions_violating_the_property_by_signature": by_sig}
+    ctx.cov["input_distribution"] = {"step_kinds": kinds, "sessions_violating_the_property_by_signature": by_sig,
+                                     "session_model_classes (occurrences in the Model/Session.v terms of this run)": model_classes,
+                                     "steps_per_session (histogram)": {str(k): v for k, v in sorted(lengths.items())}}
+    starved = [k for k, _ in MODEL_CLASSES if model_classes.get(k, 0) < (3 if ctx.tier == "quick" else 30)]
+    if s_total and starved:
+        ctx.broken.append("tie C14: the generator reaches these classes of Model/Session.v fewer than %d times: %s" % (3 if ctx.tier == "quick" else 30, "; ".join(starved)))
     ctx.cov["rule"] = ("seeded random sessions of 5-14 steps on one VM: REPL inputs of 1-4 statements (let / let mut of ints and strings, "
                        "redefinitions, assignments and increments of earlier `let mut`, fn definitions and redefinitions of four kinds "
                        "-- pure, reading a global, mutating a global, failing --, prints of variables and of calls), inputs rejected at "
